@@ -1,5 +1,6 @@
 use crate::ctx::Ctx;
 
+pub mod c01;
 pub mod c03;
 pub mod c09;
 pub mod c14;
@@ -7,6 +8,7 @@ pub mod c17;
 
 pub fn run(prop: &str, ctx: &mut Ctx) -> bool {
     match prop {
+        "C01" => c01::run(ctx),
         "C03" => c03::run(ctx),
         "C09" => c09::run(ctx),
         "C14" => c14::run(ctx),
